@@ -133,12 +133,15 @@ structure RS where
 /-- the restored graph about to be run again: nothing has run in THIS run, outputs and caches are the
 loaded ones, the `received` sets are the loaded ones unless `_on_run` empties them; a flag that was
 not cleared blocks the node -/
-def resumeInit (rc : RCfg) (d : Dag) (sn : Snap) : RS :=
+def resumeInit (rc : RCfg) (comp : Nat → Bool) (d : Dag) (sn : Snap) : RS :=
   { s := { init d with
              out := sn.out,
              received := if rc.resetReceived then (fun _ => []) else sn.received,
              st := fun i => if sn.failed i then .failed else if sn.running i then .out else .idle },
-    cache := sn.cache, fcalls := fun _ => 0 }
+    -- a child that is itself a composite (macro) comes back without its own cache: `__setstate__`
+    -- re-adopts its children through `add_child`, which resets `_cached_inputs`
+    cache := fun i => if comp i then none else sn.cache i,
+    fcalls := fun _ => 0 }
 
 /-- `child.run()` on the restored graph: fetch, (cache hit | readiness gate, cache write, run).
 `inputs.to_value_dict() == _cached_inputs` compares connected AND own input values: a node whose own
@@ -207,8 +210,13 @@ def rrunActs (fx : Fix) (cfg : Cfg) (d : Dag) (rs : RS) : List Act → Option RS
     | some rs' => rrunActs fx cfg d rs' as
     | none => none
 
-/-- cut at `s`, file written, loaded, flags cleared: where the resumed run starts -/
-def resumeFrom (rc : RCfg) (d : Dag) (s : S) : RS := resumeInit rc d (snapshot rc s).clearFlags
+/-- cut at `s`, file written, loaded, flags cleared: where the resumed run starts (`comp` = the
+children that are composites) -/
+def resumeFromC (rc : RCfg) (comp : Nat → Bool) (d : Dag) (s : S) : RS :=
+  resumeInit rc comp d (snapshot rc s).clearFlags
+
+/-- a level whose children are all function nodes -/
+def resumeFrom (rc : RCfg) (d : Dag) (s : S) : RS := resumeFromC rc (fun _ => false) d s
 
 /-! ### who writes which file (`Node._run_finally`, `Node.save_checkpoint`)
 
